@@ -237,3 +237,29 @@ Proof.
   - discriminate.
   - eapply NI; reflexivity.
 Qed.
+
+(* ---------- omit_final_dot ---------- *)
+
+Lemma AllBytes_app_l (a b : name) : AllBytes (a ++ b) -> AllBytes a.
+Proof. unfold AllBytes. intros H. apply Forall_app in H. tauto. Qed.
+
+(* the text without the final dot, read back against the root origin, is the name again *)
+Theorem text_roundtrip_omit (n : name) :
+  Valid n -> AllBytes n -> is_absolute n = true ->
+  from_text (to_text_omit n) (Some root) = Ok n.
+Proof.
+  intros V HB A. apply is_absolute_true in A. destruct A as [p ->].
+  destruct p as [|x p]; [reflexivity|].
+  assert (Valid (x :: p)) as Vp by (eapply Valid_prefix; exact V).
+  assert (AllBytes (x :: p)) as Bp by (eapply AllBytes_app_l; exact HB).
+  assert (is_absolute (x :: p) = false) as Ap by (eapply (Valid_prefix_relative (x :: p) [] []); exact V).
+  assert (to_text_omit ((x :: p) ++ [[]]) = to_text (x :: p)) as ->.
+  { unfold to_text_omit. rewrite is_absolute_last, removelast_last.
+    assert (x <> []) as Hx.
+    { destruct V as (_ & _ & V3). rewrite removelast_last in V3. inversion V3; assumption. }
+    destruct x as [|c x]; [congruence|].
+    cbn [app]. destruct (p ++ [[]]) eqn:E; [destruct p; discriminate|].
+    destruct p as [|y p]; reflexivity. }
+  rewrite text_roundtrip_origin by assumption. rewrite Ap.
+  apply mk_name_valid. exact V.
+Qed.
